@@ -1,0 +1,5 @@
+//! Facade for the end of a BGP session (properties C02 / C07, BGP part):
+//! the real `Processor::process` loop of `bgp_tcp_in/router_handler.rs`
+//! driven to its end by a script of the events its `select!` can see.
+//! Add-only; see `router_handler::verif_session_end`.
+pub use crate::units::bgp_tcp_in::router_handler::verif_session_end::*;
